@@ -232,6 +232,44 @@ def k_line(tw: int, rest: int, lead: int, second: int):
     return got == 'syntax', True
 
 
+DASH = ('- ', '- - ', '- -', '--', '-', '- --', '-  - ')
+SIGNED_HEAD = '-----BEGIN PGP SIGNED MESSAGE-----\nHash: SHA512\n\n'
+SIGNED_TAIL = '-----BEGIN PGP SIGNATURE-----\nabcd\n-----END PGP SIGNATURE-----\n'
+
+
+def k_signed_line(tw: int, rest: int, dash: int):
+    """the same line rules inside an OpenPGP cleartext block: exactly one "- " is the
+    dash-escape; anything more belongs to the line and makes it malformed"""
+    d = DASH[sym.pick_index(dash, len(DASH))]
+    t = TAGWORDS[sym.pick_index(tw, len(TAGWORDS))]
+    r = RESTS[sym.pick_index(rest, len(RESTS))]
+    text = SIGNED_HEAD + 'DATA first 1\n' + d + t + r + '\n' + SIGNED_TAIL
+    m = ManifestFile()
+    try:
+        m.load(io.StringIO(text), verify_openpgp=False)
+        got = 'ok'
+    except ManifestSyntaxError:
+        got = 'syntax'
+    except ManifestUnsignedData:
+        got = 'unsigned'
+    file_tags = ('DATA', 'MANIFEST', 'DIST', 'EBUILD', 'MISC', 'AUX')
+    if t in file_tags:
+        valid = r in (' a 0', ' a 0 MD5 x')
+    elif t == 'IGNORE':
+        valid = r in (' a', ' 2020-01-01T00:00:00Z')
+    elif t == 'TIMESTAMP':
+        valid = r == ' 2020-01-01T00:00:00Z'
+    else:
+        valid = False
+    if d == '- ' and valid:
+        return got == 'ok' and len(m.entries) == 2, False
+    return got == 'syntax', True
+
+
+def k_signed_line_pre(tw: int, rest: int, dash: int):
+    return 0 <= tw < len(TAGWORDS) and 0 <= rest < len(RESTS) and 0 <= dash < len(DASH)
+
+
 def k_line_pre(tw: int, rest: int, lead: int, second: int):
     return (0 <= tw < len(TAGWORDS) and 0 <= rest < len(RESTS) and 0 <= lead <= 2
             and 0 <= second <= 2)
@@ -282,6 +320,13 @@ def conditions(tier):
         cs.append(Cond(f'truncated_{kind}', fn, pre, timeout=600, group='escape',
                        descr=f'"\\\\{kind}" followed by only {n - 1} characters at the end of '
                              'the field is a syntax error', bounds=f'{n - 1} free characters'))
+    for dz in range(len(DASH)):
+        cs.append(Cond(f'signed_line_d{dz}', specialise(k_signed_line, dash=dz),
+                       specialise(k_signed_line_pre, dash=dz), timeout=300, group='line',
+                       twin=False,
+                       descr=f'real load() of a cleartext-signed block whose second line is '
+                             f'{DASH[dz]!r} + tag word + tail: only a single "- " is an escape',
+                       bounds='18 tag words x 10 tails'))
     for tw in range(len(TAGWORDS)):
         cs.append(Cond(f'line_{tw}', specialise(k_line, tw=tw), specialise(k_line_pre, tw=tw),
                        timeout=300, group='line', twin=False,
